@@ -122,6 +122,33 @@ def install(it, lines, tables, dialect=None, existing_db=False, path="/ghost/in.
         exists[a[0]] = False
         if a[0] == dbfn and conns:
             conns[0].tables_exist = False        # the tables live in the file: an unlinked file is a fresh, empty database
+    # a compressed input may be opened directly (gzip.open) and copied around (shutil.copyfileobj): neither creates a file
+    import gzip as _gzip
+    import shutil as _shutil
+
+    class _GhostStream(object):
+        _pyvc_model = True
+
+        def __init__(self, name):
+            self.name = name
+
+        def __enter__(self):
+            return self
+
+        def __exit__(self, *a):
+            return False
+
+        def close(self):
+            pass
+
+    def gzip_open(interp, a, k):
+        Ctx.current.effect("open", a[0], a[1] if len(a) > 1 else k.get("mode", "rb"))
+        return _GhostStream(a[0])
+
+    def copyfileobj(interp, a, k):
+        Ctx.current.effect("copyfileobj", getattr(a[0], "name", None), getattr(a[1], "name", None))
+    it.contracts[_gzip.open] = gzip_open
+    it.contracts[_shutil.copyfileobj] = copyfileobj
     it.contracts[os.path.exists] = path_exists
     it.contracts[os.unlink] = unlink
     it.contracts[os.remove] = unlink
@@ -179,10 +206,10 @@ def run_create_db(it, kinds, checklines, **kw):
                         for c in a.constraints():
                             ctx.assume(c)
         tables = GhostTables()
-        env = install(it, lines, tables, **{k: v for k, v in kw.items() if k in ("dialect", "existing_db", "features")})
+        env = install(it, lines, tables, **{k: v for k, v in kw.items() if k in ("dialect", "existing_db", "features", "path")})
         ctx.stash.update(lines=lines, info=info, tables=tables, env=env)
-        args = {k: v for k, v in kw.items() if k not in ("dialect", "existing_db", "features")}
-        db = it.call(C.create_db, ["/ghost/in.gff", "/ghost/out.db"], dict(checklines=checklines, **args))
+        args = {k: v for k, v in kw.items() if k not in ("dialect", "existing_db", "features", "path")}
+        db = it.call(C.create_db, [kw.get("path", "/ghost/in.gff"), "/ghost/out.db"], dict(checklines=checklines, **args))
         ctx.stash["db"] = db
         return db
     return run
